@@ -500,6 +500,18 @@ def mutated_requests(thorough=False):
         })
     for k, (h, b) in fr.items():
         yield k, req(P, h, b)
+    # every ordered pair (and every single one) of framing fields, zero and non-zero lengths first and second,
+    # adjacent and with another field between them
+    FR = [("cl0", b"Content-Length: 0"), ("cl3", b"Content-Length: 3"), ("cl5", b"Content-Length: 5"),
+          ("clbad", b"Content-Length: 3x"), ("tech", b"Transfer-Encoding: chunked"), ("tegz", b"Transfer-Encoding: gzip")]
+    for ka, a in FR:
+        yield "framing-single:" + ka, req(P, [a], ch3)
+        for kb, b in FR:
+            yield "framing-pair:%s,%s" % (ka, kb), req(P, [a, b], ch3)
+            yield "framing-pair-apart:%s,%s" % (ka, kb), req(P, [a, b"Host: h", b], ch3)
+    for ka, a in FR[:3]:
+        yield "framing-triple:cl0,%s,tech" % ka, req(P, [FR[0][1], a, FR[4][1]], ch3)
+        yield "framing-triple:tech,cl0,%s" % ka, req(P, [FR[4][1], FR[0][1], a], ch3)
     yield "http10-te-chunked", req(b"POST /p HTTP/1.0", [b"Transfer-Encoding: chunked"], ch3)
     yield "http10-keep-alive", req(b"GET / HTTP/1.0", [b"Connection: keep-alive"])
     yield "http10-expect-100", req(b"POST /p HTTP/1.0", [b"Expect: 100-continue", b"Content-Length: 3"], body3)
@@ -527,6 +539,38 @@ def mutated_requests(thorough=False):
     yield "lf-only-lines", b"GET / HTTP/1.1\nHost: h\n\n"
     yield "body-looks-like-request", req(P, [b"Content-Length: %d" % len(SMUGGLE)], SMUGGLE)
     yield "body-without-length", req(P, [b"Host: h"], b"")
+
+
+def chunked_family():
+    """Well-formed chunked requests with multi-digit sizes, extensions, several chunks, trailers, each followed by a
+    pipelined request.  Returns (label, stream, positions inside / next to chunk-size lines) -- the positions are known
+    from the construction."""
+    def build(label, chunks, trailers=(), last=b"0", pre=b""):
+        head = pre + b"POST /c HTTP/1.1\r\nHost: h\r\nTransfer-Encoding: chunked\r\n\r\n"
+        out = head
+        pos = set()
+        for sizeline, data in chunks:
+            a = len(out)
+            out += sizeline + CRLF
+            pos.update(range(a, len(out) + 2))
+            out += data + CRLF
+            pos.update((len(out) - 2, len(out) - 1, len(out)))
+        a = len(out)
+        out += last + CRLF + b"".join(t + CRLF for t in trailers) + CRLF
+        pos.update(range(a, len(out) + 1))
+        out += FOLLOW
+        return label, out, sorted(p for p in pos if 0 < p < len(out))
+
+    d = lambda n, c=b"d": (c * n)
+    yield build("chunked:16-then-3", [(b"10", d(16)), (b"3", b"abc")])
+    yield build("chunked:256-then-5", [(b"100", d(256)), (b"5", b"hello")])
+    yield build("chunked:ext-then-1", [(b"a;name=value", d(10)), (b"1", b"x")])
+    yield build("chunked:leading-zeros", [(b"00010", d(16, b"z")), (b"2", b"\r\n")])
+    yield build("chunked:31-10-1-trailer", [(b"1f", d(31)), (b"a", d(10, b"e")), (b"1", b"!")], trailers=(b"T: v",))
+    yield build("chunked:upper-ext-quoted", [(b'1F;x="q s";y', d(31, b"\n")), (b"B", d(11, b"\r"))], last=b"000;l")
+    yield build("chunked:after-cl-request", [(b"12", d(18)), (b"4", b"0\r\n\r")],
+                pre=b"POST /b HTTP/1.1\r\nContent-Length: 4\r\n\r\n1\r\nX")
+    yield build("chunked:many-small", [(b"%x" % n, d(n, b"%d" % (n % 10))) for n in (17, 2, 16, 1, 32, 3)])
 
 
 def c19_streams(rng, thorough=False, nrandom=200):
